@@ -117,8 +117,18 @@ Example C20_partial_nonvacuous :
      [CDump [VTBase 1; VTBase 1; VTBase 1]; CLoad [KExact 0]];
      [CEnv false]].
 Proof.
-  cbv zeta. repeat constructor; cbn;
-    try (right; repeat constructor; eexists; split; [reflexivity | apply PeanoNat.Nat.ltb_lt; vm_compute; reflexivity]).
+  cbv zeta.
+  assert (Hb : forall b, Nat.ltb b NBASE = true -> base_val (VTBase b)).
+  { intros b H. exists b. split; [reflexivity | now apply PeanoNat.Nat.ltb_lt]. }
+  repeat match goal with
+         | |- Forall _ [] => constructor
+         | |- Forall _ (_ :: _) => constructor
+         | |- safe_call _ _ (CLoad _) => cbn; repeat constructor
+         | |- safe_call _ _ (CDump _) =>
+             split; [split; [repeat constructor | left; reflexivity]
+                    | right; repeat constructor; apply Hb; vm_compute; reflexivity]
+         | |- safe_call _ _ (CEnv _) => reflexivity
+         end.
 Qed.
 
 (* ... and on it a concrete interleaving really finishes with those results *)
